@@ -93,8 +93,11 @@ def cmpsHold (β : Bindings) : List Lit → Bool
 mutual
 /-- `valid prog base M tree`: the tree is a correct derivation of its conclusion.
     * fact/edb leaf: a stored fact;
-    * fact/derived leaf and truncated leaf: *unexplained*, accepted iff the conclusion is in the
-      world (true but not justified — counted against C22, not C21);
+    * fact/derived leaf: *unexplained*, accepted iff the conclusion is in the world (true but not
+      justified — counted against C22, not C21);
+    * truncated leaf: an explicit "not explained further" marker, not a derivation step — accepted
+      here (C21 constrains rule steps, fact leaves and negation leaves), counted against C22; the
+      soundness theorem concludes derivability only for trees without truncated nodes;
     * rule node: names clause `idx`, its bindings instantiate the head to the conclusion, the
       children are, in body order, a valid proof of an instance of each positive atom and a
       negation leaf for each negated atom whose pattern has no matching fact in the world, and
@@ -103,7 +106,7 @@ mutual
 def valid (prog : Program) (base M : DB) : Tree → Bool
   | .node (.fact .edb) pred args kids => memL args (base.get pred) && kids.isEmpty
   | .node (.fact .derived) pred args kids => memL args (world base M pred) && kids.isEmpty
-  | .node (.trunc _) pred args kids => memL args (world base M pred) && kids.isEmpty
+  | .node (.trunc _) _ _ kids => kids.isEmpty
   | .node (.neg _) _ _ _ => false
   | .node (.rule idx β) pred args kids =>
     match prog[idx]? with
@@ -120,7 +123,7 @@ def validKids (prog : Program) (base M : DB) (β : Bindings) : List Lit → List
     (match k.kind with
      | .neg pat =>
         k.pred == a.rel && pat == substituteAtom a β &&
-        k.args == (substituteAtom a β).filterMap (fun | .conc v => some v | _ => none) &&
+        k.args == concPart (substituteAtom a β) &&
         (world base M a.rel).all (fun t => !negBlockedBy β a t)
      | _ => false) &&
     validKids prog base M β ls ks
@@ -128,6 +131,15 @@ def validKids (prog : Program) (base M : DB) (β : Bindings) : List Lit → List
 end
 
 /-! ### measures on trees (C22) -/
+
+mutual
+def Tree.hasTrunc : Tree → Bool
+  | .node (.trunc _) _ _ _ => true
+  | .node _ _ _ kids => Tree.hasTruncList kids
+def Tree.hasTruncList : List Tree → Bool
+  | [] => false
+  | k :: ks => k.hasTrunc || Tree.hasTruncList ks
+end
 
 mutual
 def Tree.depth : Tree → Nat
@@ -275,6 +287,41 @@ def blockerHolds (base M : DB) (r : Rule) (target : Tuple) (β : Bindings) : Blo
     | some (.cmp x op y) => evalCmp x op y β == none
     | _ => false
 
+def varsOf (args : List Term) : List String := args.filterMap (fun | .var x => some x | _ => none)
+
+/-- safe negation: every variable of a negated atom occurs in the head or in an earlier positive atom. -/
+def safeNegAux : List Lit → List String → Bool
+  | [], _ => true
+  | .pos a :: ls, bound => safeNegAux ls (varsOf a.args ++ bound)
+  | .neg a :: ls, bound => (varsOf a.args).all (fun x => bound.contains x) && safeNegAux ls bound
+  | _ :: ls, bound => safeNegAux ls bound
+
+def Rule.terms (r : Rule) : List Term :=
+  r.head.args ++ r.body.flatMap (fun | .pos a => a.args | .neg a => a.args | .cmp l _ r => [l, r] | .other => [])
+
+def goodV (v : Value) : Bool := valuesEqual v v
+def goodDB (db : DB) : Bool := db.all (fun p => p.2.all (fun t => t.all goodV))
+def Term.good (t : Term) : Bool := match termToValue t with | some v => goodV v | none => true
+
+/-- the fragment of `C21_partial`, as a decidable predicate on the program and the derived data:
+    supported terms only; no `_` in heads; safe negation; negated relations have no derived tuples
+    (excludes `neg_over_derived`); a positive atom over a relation with rules repeats no variable
+    (excludes `repeated_var_over_derived`) and has the arity of that relation's heads; no NaN constant;
+    no variable spelled `_placeholder_…`. -/
+def c21Fragment (prog : Program) (M : DB) : Bool :=
+  prog.all (fun r =>
+    r.supported && r.head.args.all (fun a => a != .wild) && safeNegAux r.body (varsOf r.head.args) &&
+    r.terms.all Term.good && (varsOf r.terms).all (fun x => !isPlaceholderName x) &&
+    r.body.all (fun
+      | .neg a => (M.get a.rel).isEmpty
+      | .pos a => !prog.any (fun r' => r'.head.rel == a.rel) ||
+          (decide ((varsOf a.args).Nodup) && prog.all (fun r' => r'.head.rel != a.rel || r'.head.args.length == a.args.length))
+      | _ => true))
+
+/-- the derived data has tuples only for relations that have rules. -/
+def derivedOnlyHeads (prog : Program) (M : DB) : Bool :=
+  M.all (fun p => prog.any (fun r => r.head.rel == p.1) || p.2.isEmpty)
+
 /-- does the relation have at least one rule? (`ProofContext::is_derived`) -/
 def hasRulesFor (p : Program) (rel : String) : Bool := p.any (fun r => r.head.rel == rel)
 
@@ -307,5 +354,36 @@ def truthful (prog : Program) (base M : DB) (rel : String) (target : Tuple) (exp
     (clauses.zip expl).all (fun p => match p.2.blocker with
       | none => false
       | some b => blockerHolds base M p.1 target p.2.bindings b)
+
+/-- canonical stored values: what the engine stores and derives — integers are `Int64`, no floats
+    (`valuesEqual` is then plain equality). -/
+def canonV : Value → Bool
+  | .i32 _ => false
+  | .f64 _ => false
+  | _ => true
+def canonDB (db : DB) : Bool := db.all (fun p => p.2.all (fun t => t.all canonV))
+
+def rankOf (rk : List (String × Nat)) (rel : String) : Nat := (rk.lookup rel).getD 0
+
+/-- the fragment of `C22_partial`: positive bodies only (no negation, no comparison), supported terms,
+    non-recursive with the given rank table (every body relation ranks strictly below the head),
+    relations with rules store no facts, only they have derived tuples, canonical data, at least one
+    proof per tuple allowed. -/
+def c22Fragment (prog : Program) (base M : DB) (rk : List (String × Nat)) : Bool :=
+  prog.all (fun r =>
+    r.supported && (base.get r.head.rel).isEmpty &&
+    r.body.all (fun
+      | .pos a => decide (rankOf rk a.rel < rankOf rk r.head.rel)
+      | _ => false)) &&
+  derivedOnlyHeads prog M && canonDB base && canonDB M
+
+/-- every derived tuple is supported by a clause instance over the world `(base, M)` (one step of the
+    immediate-consequence operator, run by the reference evaluator): true of the perfect model. -/
+def supportedModel (prog : Program) (base M : DB) : Bool :=
+  M.all (fun p => p.2.all (fun t =>
+    (prog.filter (fun r => r.head.rel == p.1)).any (fun r =>
+      match unifyHead t r.head with
+      | none => false
+      | some β0 => !(evalBody (world base M) (world base M) r.body [β0]).isEmpty)))
 
 end ILV.Prov
